@@ -142,8 +142,14 @@ def tdTopK (c : TdChain) (t : Nat) : Option (List Nat) :=
   else if c.tip < t - 3 then none
   else some ((recordedAt c.edits (t - 3)).getD c.init)
 
-/-- `calHisValidators(h)`: the proposers of the term of ledger block `h`. -/
+/-- `calHisValidators(h)`: the proposers of the term of ledger block `h` — the top-K the
+term's first block `F` was produced and admitted under, `calTopKNominator(F - 1)` (after the
+repair `fix: tdpos calHisValidators …`; the code as found used `F`, one block later). -/
 def tdHis (c : TdChain) (h : Nat) : Option (List Nat) :=
+  tdTopK c (firstOfTerm c.terms c.start h - 1)
+
+/-- the historical lookup of the code as found -/
+def tdHisAsFound (c : TdChain) (h : Nat) : Option (List Nat) :=
   tdTopK c (firstOfTerm c.terms c.start h)
 
 /-- `tdposSchedule.CalOldProposers(height, timestamp, storage)`; `inputTerm` is the
